@@ -177,6 +177,34 @@ def o2(W, ob):
                  'cut-off predicate is `disconnected & last_frame < %s`' % F,
                  'the cut-off predicate in %s is `%s`; every sibling must decide `disconnected & last_frame < F` with F = '
                  'the frame being built (%s)' % (short(f.parent or f.path), dnf_str(g)[:300], F), where(f, line))
+    # one (input, status) pair per player: in the two sync-layer loops no path through an iteration avoids the push (an `else` that went to the inner of two nested
+    # tests leaves a player without a pair, and every later player's pair one index lower)
+    for name in (SL + '::synchronized_inputs', SL + '::confirmed_inputs'):
+        f = W.fn(name)
+        G = W.guards(f)
+        cfg = cfg_of(f)
+        loops = G.loop_by_header()
+        if not loops:
+            ob.info('%s has no loop (an iterator chain yields one element per player by construction)' % short(f.path))
+        for h, body in loops.items():
+            pushes = {t.bb for t in f.calls() if last_seg(t.callee.best) == 'push' and t.bb in body}
+            if not pushes:
+                continue
+            seen, st = set(), [x for x in cfg.succ[h] if x in body and x not in pushes]
+            around = False
+            while st:
+                x = st.pop()
+                if x in seen:
+                    continue
+                seen.add(x)
+                for y in cfg.succ[x]:
+                    if y == h:
+                        around = True
+                    elif y in body and y not in pushes and not f.blocks[y].cleanup:
+                        st.append(y)
+            ob.check(not around, '%s|one-pair-per-player' % short(f.path), 'every iteration of the loop in %s pushes a pair' % short(f.path),
+                     'an iteration of the per-player loop in %s can complete without pushing an (input, status) pair: the result is shorter than the number of players and later '
+                     'players\' pairs move down' % short(f.path), where(f))
     # the debug assertion in advance_lockstep_frame (only with debug assertions)
     if W.fx.debug_assertions:
         ls = [c for c in W.closures_of(W.fn(P2P + '::advance_lockstep_frame'))]
@@ -467,7 +495,7 @@ OBLIGATIONS = [
     ('C03.R', 'how map entries are written', 'every write into a map this property\'s rules rely on has the reviewed class (overwrite: the newest value for a key wins; keep-existing: the first one does) -- a local input submitted again before advancing replaces the pending one; see rules/removals.py, tables/removals.json', removals.rule_for('C03')),
     ('C03.V', 'no unreviewed condition in the pinned helpers', 'for each helper whose body this property\'s rules pin (tables/condition_terms.json), the terms its path conditions are built from (fields, parameters, call results -- no constants, operators or local names) are a subset of the reviewed vocabulary: one more `if` in front of a pinned result (a lock that may time out, "only while an endpoint is running") is reported; see rules/vocab.py', vocab.rule_for('C03')),
     ('C03.S', 'state inventory', 'every field of the structs this property\'s rules read (tables/state.json) is known, and is written only by its reviewed writers (or helpers only they call): a new field is new state across calls -- a cache, a flag, a stored deadline -- that nothing has shown to stay in step; a new writer is a second place that resets, re-arms or moves something; see rules/inventory.py', inventory.state_rule_for('C03')),
-    ('C03.K', 'call inventory', 'every reviewed call of a function that writes state (tables/call_edges.json, callers in the structs this property\'s rules read) is still made, directly or through helpers: a call deleted as redundant is reported; see rules/inventory.py', inventory.call_rule_for('C03')),
+    ('C03.K', 'call inventory', 'every reviewed call of a function that writes state (tables/call_edges.json, callers in the structs this property\'s rules read) is still made, directly or through helpers: a call deleted as redundant is reported; likewise the arguments of logging / debug-only macros change no state, no unreviewed call of a state-writing function appears (tables/call_edges_all.json), the types of the locals a loop carries from one iteration to the next (tables/carried.json) and, per function and field, how reads and writes of the field are ordered (tables/orders.json: a snapshot taken before instead of after an update) are as reviewed; see rules/inventory.py', inventory.call_rule_for('C03')),
     ('C03.A', 'expression inventory', 'every arithmetic expression handed to a call or stored in a field, and what every closure given to an iterator adaptor / collection method returns, is one of the reviewed expressions of its function (tables/expressions.json; linear / guard normal forms, no local names): a changed literal, operator, operand order, factor, predicate or sort key is reported; see rules/inventory.py', inventory.expr_rule_for('C03')),
     ('C03.P', 'trait-impl inventory', 'each (type, trait) pair among PartialEq / Eq / Hash / Ord / Clone / Default / From / Deref / InputPredictor is derived or hand-written as listed in tables/impls.json: a derive replaced by a hand-written impl (equality by address only, a hash that ignores a field) changes which map keys collide and which inputs match with every call site unchanged; see rules/inventory.py', inventory.impl_rule),
     ('C03.Z', 'constants and type shapes', 'every named constant keeps its reviewed value and every type its reviewed shape -- variants and fields in order, with their types (tables/shapes.json): a ring size, sentinel, default or wire constant changed by value, a frame or checksum stored in a narrower type, a variant or field added, removed or reordered is reported; see rules/inventory.py', inventory.shape_rule),
